@@ -112,6 +112,9 @@ def _score(version, title, path):
 
 
 PANEL.append((_score('4.0', 'first', 'a.xml'), _score('3.1', 'second', 'b.xml')))
+# thread A takes an error path of the shared attribute table (an undeclared attribute), thread B uses the same type
+PANEL.append(({'element': 'supports', 'value': None, 'attrs': {'bogus_zz': 'x'}},
+              {'element': 'supports', 'value': None, 'attrs': {'type': 'yes', 'element': 'print'}}))
 
 
 def run_pair(wa, wb, ks=None, max_k=None, offset=0, slice_=None, of=None):
